@@ -9,6 +9,7 @@ import (
 	"time"
 	"unicode/utf8"
 
+	"github.com/nyaruka/goflow/assets"
 	"github.com/nyaruka/goflow/flows"
 	"github.com/nyaruka/goflow/flows/engine"
 	"github.com/nyaruka/goflow/flows/events"
@@ -133,6 +134,35 @@ func judgeLimits(c *mc.Ctx, t *sm.Trans, loose *world.Root, lim limits, count bo
 		return ps
 	}
 	s := t.X.Session
+	// the handed-back session answers the host's read-only calls without panicking, as the live object
+	// and as the object a host gets by persisting and re-reading it (the expression context is forced
+	// completely: every property, array element and rendering)
+	for _, mode := range []string{"live", "restored"} {
+		sess := s
+		var rerr error
+		if mode == "restored" {
+			b, err := json.Marshal(s)
+			if err != nil {
+				continue
+			}
+			sess, rerr = t.X.Eng.ReadSession(t.X.SA, b, assets.IgnoreMissing)
+			if rerr != nil {
+				continue // a session that does not read back is C02's subject
+			}
+		}
+		if p := mc.Guard(func() {
+			if ctx := sess.CurrentContext(); ctx != nil {
+				sm.WalkContext(sess.MergedEnvironment(), ctx, nil, 4)
+			}
+			for _, r := range sess.Runs() {
+				r.PathLocation()
+			}
+		}); p != "" {
+			add("panic:session-read-call:"+mode+":"+mc.PanicSite(p), "reading the expression context / run locations of the %s session after the call panicked: %s", mode, p)
+		} else if count {
+			c.Inc("session_read_calls_" + mode)
+		}
+	}
 	n := t.NewSteps()
 	if n > lim.steps {
 		add(fmt.Sprintf("steps:sprint-exceeded-step-limit:by-%d", min(n-lim.steps, 3)), "sprint made %d new steps, MaxStepsPerSprint is %d", n, lim.steps)
